@@ -1,21 +1,30 @@
 #!/bin/bash
-# apply every kept seeded change to /repo in turn, run the quick check of its property, record what caught it
-cd /verif
+# Apply every kept seeded change (or the ids given as arguments) in a scratch worktree of /repo HEAD (FGGS_REPO), run the
+# quick check of its property against that worktree, and record what caught it in seeded/RESULTS.jsonl.
+# /repo itself is never touched; evidence and replay files go to scratch directories.
+W=${MATRIX_WT:-/tmp/wt2/matrix}
+S=${W}_scratch
+mkdir -p /tmp/wt2 $S
+[ -d $W ] || git -C /repo worktree add --detach $W HEAD >/dev/null 2>&1
+cd $W && git checkout -q --detach $(git -C /repo rev-parse HEAD) && git reset -q --hard HEAD
 out=/verif/seeded/RESULTS.jsonl
-: > $out
-for d in /verif/seeded/C*/; do
-  id=$(basename $d); prop=${id%%-*}
-  cd /repo; git diff --quiet || { echo "repo dirty"; exit 3; }
-  git apply --3way $d/patch.diff >/dev/null 2>&1 || git apply $d/patch.diff || { echo "{\"id\":\"$id\",\"applies\":false}" >> $out; git reset -q --hard HEAD; continue; }
+touch $out
+ids="$@"
+[ -z "$ids" ] && ids=$(cd /verif/seeded && ls -d C*/ | tr -d /)
+for id in $ids; do
+  d=/verif/seeded/$id; prop=${id%%-*}
+  cd $W; git reset -q --hard HEAD
+  git apply --3way $d/patch.diff >/dev/null 2>&1 || git apply $d/patch.diff || { grep -v "\"id\":\"$id\"" $out > $out.tmp; mv $out.tmp $out; echo "{\"id\":\"$id\",\"applies\":false}" >> $out; git reset -q --hard HEAD; continue; }
   git reset -q
   cd /verif
-  res=$(VERIF_REPLAY_DIR=/tmp/wt2/replays_m VERIF_EVIDENCE_DIR=/tmp/wt2/evidence_m /venv/bin/python /verif/check.py check $prop --tier quick 2>/dev/null | grep -v "conda WARNING")
-  rc=$?
+  res=$(VERIF_REPLAY_DIR=$S/replays VERIF_EVIDENCE_DIR=$S/evidence FGGS_REPO=$W /venv/bin/python /verif/check.py check $prop --tier quick 2>/dev/null | grep -v "conda WARNING")
   sig=$(echo "$res" | grep -m1 "signature=" | sed 's/.*signature=\(\[[^]]*\]\).*/\1/')
   nviol=$(echo "$res" | grep -m1 "^\[" | sed -n "s/.*'violation': \([0-9]*\).*/\1/p")
   runs=$(echo "$res" | grep -m1 "^\[" | sed -n "s/.*runs=\([0-9]*\).*/\1/p")
   caught=$(echo "$res" | grep -c "^VIOLATION")
+  grep -v "\"id\":\"$id\"" $out > $out.tmp; mv $out.tmp $out
   echo "{\"id\":\"$id\",\"property\":\"$prop\",\"caught\":$([ $caught -gt 0 ] && echo true || echo false),\"violating_runs\":${nviol:-0},\"runs\":${runs:-0},\"first_signature\":\"$(echo $sig | tr '"' "'")\"}" >> $out
-  cd /repo; git reset -q --hard HEAD
   tail -1 $out
 done
+cd $W && git reset -q --hard HEAD
+sort -o $out $out
